@@ -81,6 +81,55 @@ fn check(ctx: &Ctx, which: Which, len: usize, tid: u64) {
     let _ = std::fs::remove_file(&path);
 }
 
+/// The same lengths again and again with different contents - through one BuildResult patched in
+/// place and through fresh objects - code writer and EEPROM writer alternating: a result remembered
+/// from an earlier call must never be written for a later image.
+fn repeated_same_length(ctx: &Ctx) {
+    let lens: Vec<usize> = vec![0, 1, 15, 16, 17, 33, 64, 255, 256, 600, 4096, 65535, 65536, 65537, 70000];
+    fw::par_items(&lens, |ti, len| {
+        let path = scratch().join(format!("rep_{}_{}.hex", ti, len));
+        let mut shared = BuildResult { code: vec![], eeprom: vec![], flash_size: 4194304, eeprom_size: 65536, ram_size: 8388608, ram_filling: 0, messages: vec![] };
+        for round in 0..6u64 {
+            let code = image(*len, ctx.seed ^ (round << 32) ^ *len as u64);
+            let eep = image((*len).min(65536), !ctx.seed ^ (round << 40) ^ *len as u64);
+            // even rounds: the same object patched in place; odd rounds: a fresh object
+            let fresh;
+            let br: &BuildResult = if round % 2 == 0 {
+                shared.code = code.clone();
+                shared.eeprom = eep.clone();
+                &shared
+            } else {
+                fresh = BuildResult { code: code.clone(), eeprom: eep.clone(), flash_size: 4194304, eeprom_size: 65536, ram_size: 8388608, ram_filling: 0, messages: vec![] };
+                &fresh
+            };
+            for which in [Which::Code, Which::Eeprom] {
+                let img = if which == Which::Code { &code } else { &eep };
+                let p2 = path.clone();
+                let res = fw::guarded(|| match which {
+                    Which::Code => avra_lib::writer::write_code_hex(p2, br).map_err(|e| e.to_string()),
+                    Which::Eeprom => avra_lib::writer::write_eeprom_hex(p2, br).map_err(|e| e.to_string()),
+                });
+                ctx.eval(1);
+                ctx.count("repeated_same_length_writes", 1);
+                let ok = match res {
+                    Ok(Ok(())) => std::fs::read(&path).ok().and_then(|t| ihex::decode(&t).ok()).map(|d| ihex::compare(&d, img).is_ok()).unwrap_or(false),
+                    _ => false,
+                };
+                if !ok {
+                    let wname = if which == Which::Code { "code" } else { "eeprom" };
+                    ctx.violation(
+                        format!("hex/{}/repeated-same-length/{}", wname, if round % 2 == 0 { "object-patched-in-place" } else { "fresh-object" }),
+                        format!("write #{} of a {}-byte {} image (same length as the writes before it, other contents) does not decode to that image", round + 1, img.len(), wname),
+                        json!({"repeated": true, "writer": wname, "len": len, "round": round}),
+                    );
+                    return;
+                }
+            }
+        }
+        let _ = std::fs::remove_file(&path);
+    });
+}
+
 fn lengths(ctx: &Ctx) -> (Vec<usize>, Vec<usize>, usize) {
     let max_flash_words = devices::table().iter().map(|(_, d)| d.flash_size).max().unwrap_or(131072) as usize;
     let max_flash = max_flash_words * 2;
@@ -181,17 +230,20 @@ pub fn run(ctx: &Ctx) -> i32 {
         check(ctx, w, l, i);
     });
     pipeline(ctx);
+    repeated_same_length(ctx);
     ctx.exhaustive.store(true, std::sync::atomic::Ordering::Relaxed);
     let _ = std::fs::remove_dir_all(scratch());
     fw::finish(
         ctx,
-        "write_code_hex and write_eeprom_hex called on synthetic BuildResults: every length 0..600 and every length within ±20 of each multiple of 64 KiB up to the largest flash in DEVICES (EEPROM writer: up to 64 KiB) with position-dependent contents (thorough: + lengths ≡ 0,1,15 mod 16 below 4096, 2000 random lengths, 1 MiB and 8 MiB images, full pipeline); distinct_nontrivial = distinct (writer, length) pairs",
+        "write_code_hex and write_eeprom_hex called on synthetic BuildResults: every length 0..600 and every length within ±20 of each multiple of 64 KiB up to the largest flash in DEVICES (EEPROM writer: up to 64 KiB) with position-dependent contents (thorough: + lengths ≡ 0,1,15 mod 16 below 4096, 2000 random lengths, 1 MiB and 8 MiB images, full pipeline); plus 15 lengths written six times each with different contents through one BuildResult patched in place and through fresh objects, code and EEPROM writer alternating; distinct_nontrivial = distinct (writer, length) pairs",
         &["refmodel/ihex.rs strict reader (self-tested on hand-made good and bad files)"],
     )
 }
 
 pub fn replay(ctx: &Ctx, case: &Value) -> i32 {
-    if let Some(src) = case["pipeline_source"].as_str() {
+    if case["repeated"].as_bool() == Some(true) {
+        repeated_same_length(ctx);
+    } else if let Some(src) = case["pipeline_source"].as_str() {
         let _ = src;
         pipeline(ctx);
     } else {
